@@ -1,2 +1,140 @@
-/- Model driver for C19 (line protocol). Stub until the property's model lands. -/
-def main : IO Unit := pure ()
+/-
+  Model driver for C19 (line protocol, see harness/c19_main.c and tools/props/c19.py). Imports Model + Gen only.
+  The name mapping is run over the tables of Gen/C19.lean (what the running code tests today); Props/C19.lean proves
+  them equal to the model tables the theorems are about.
+
+    name <c|d> <fmt> <sfx|none> <name>      -> "ok <hex>" | "skip already" | "skip unknown" | "fatal"
+    rt <fmt> <dfmt> <sfx|none> <name>       -> "<compress result> | <decompress result of that name>"
+    sfx <suffix>                            -> "ok" | "fatal"
+    ts <suffix> <name>                      -> decimal
+    mode <m> <0|1|2>                        -> decimal
+    exit <w|e>...                           -> decimal
+    opensrc <kind> <sym> <suid> <sgid> <sticky> <nlink> <c> <f> <k>     -> "<code> <exit status>"
+    runfile <c|d> <fmt> <sfx|none> <c> <f> <k> <name> <kind> <sym> <srcmode> <nlink> <destkind> <gfail> <ofail> <nowarn>
+                                            -> "A=<action> D=<dest hex|-> M=<mode|-> R=<0|1> X=<exit status>"
+    status <nowarn> <w|e>...                -> decimal exit status of a run reporting these events
+-/
+import XzVerif.Model.Proto
+import XzVerif.Model.Suffix
+import XzVerif.Gen.C19
+open XzVerif XzVerif.Proto XzVerif.Suffix
+
+def fmtOf (s : String) : Option Format :=
+  match s with
+  | "auto" => some .auto | "xz" => some .xz | "lzma" => some .lzma | "lzip" => some .lzip | "raw" => some .raw
+  | _ => none
+
+/-- per-format compression tables as measured on the code -/
+def genComp (f : Format) : List Name × Option Name :=
+  match f with
+  | .xz => (Gen.C19.compSuffixesXz, Gen.C19.compDefaultXz)
+  | .lzma => (Gen.C19.compSuffixesLzma, Gen.C19.compDefaultLzma)
+  | .raw => (Gen.C19.compSuffixesRaw, Gen.C19.compDefaultRaw)
+  | _ => ([], none)
+
+def gCompressed (f : Format) (custom : Option Name) (name : Name) : Option Name :=
+  compressedNameT (genComp f).1 (genComp f).2 custom name
+
+def gUncompressed (f : Format) (custom : Option Name) (name : Name) : Option Name :=
+  uncompressedNameT Gen.C19.uncompTable f custom name
+
+/-- "none" = no custom suffix; otherwise the bytes go through `suffix_set`. Outer none = fatal. -/
+def sfxOf (s : String) : Option (Option (Option Name)) :=
+  if s == "none" then some (some none)
+  else match bytesOfHex s with
+    | none => none
+    | some bs => match suffixSet bs with
+      | none => some none          -- fatal
+      | some c => some (some (some c))
+
+def showName (r : Option Name) (skip : String) : String :=
+  match r with
+  | some n => "ok " ++ hexOfBytes n
+  | none => "skip " ++ skip
+
+def b01 (s : String) : Bool := s == "1"
+
+def statusCode (evs : List Status) : Nat := (evs.foldl setExitStatus .success).toNat
+
+def srcOf (kind sym su sg st nl : String) : Option Src := do
+  let k ← kind.toNat?
+  let n ← nl.toNat?
+  pure ⟨Kind.ofCode k, b01 sym, b01 su, b01 sg, b01 st, n⟩
+
+def actionStr (a : Action) : String :=
+  match a with
+  | .emptyName => "empty"
+  | .srcRefused d => s!"src:{d.toNat}"
+  | .nameSkipped => "nameskip"
+  | .destRefused .errExists => "dest:exists"
+  | .destRefused .errCannotRemove => "dest:cannotremove"
+  | .destRefused _ => "dest:?"
+  | .toStdout => "stdout"
+  | .done _ _ => "done"
+
+def step (_ : Unit) (ws : List String) : Unit × String :=
+  match ws with
+  | ["name", md, f, sx, nm] =>
+    match fmtOf f, sfxOf sx, bytesOfHex nm with
+    | some fmt, some (some custom), some name =>
+      if md == "c" then ((), showName (gCompressed fmt custom name) "already")
+      else ((), showName (gUncompressed fmt custom name) "unknown")
+    | some _, some none, some _ => ((), "fatal")
+    | _, _, _ => ((), "bad-op")
+  | ["rt", f, df, sx, nm] =>
+    match fmtOf f, fmtOf df, sfxOf sx, bytesOfHex nm with
+    | some fmt, some dfmt, some (some custom), some name =>
+      match gCompressed fmt custom name with
+      | some t => ((), showName (some t) "already" ++ " | " ++ showName (gUncompressed dfmt custom t) "unknown")
+      | none => ((), "skip already | -")
+    | some _, some _, some none, some _ => ((), "fatal")
+    | _, _, _, _ => ((), "bad-op")
+  | ["sfx", sx] =>
+    match bytesOfHex sx with
+    | some bs => ((), if suffixIsSet bs then "ok" else "fatal")
+    | none => ((), "bad-op")
+  | ["ts", sx, nm] =>
+    match bytesOfHex sx, bytesOfHex nm with
+    | some s, some n => ((), toString (testSuffix s n))
+    | _, _ => ((), "bad-op")
+  | ["mode", m, sc] =>
+    match m.toNat?, sc.toNat? with
+    | some m, some sc => ((), toString (destMode m (sc == 2)))
+    | _, _ => ((), "bad-op")
+  | "exit" :: evs =>
+    ((), toString (statusCode (evs.map fun e => if e == "w" then Status.warning else Status.error)))
+  | "status" :: nw :: evs =>
+    ((), toString (runStatus (evs.map fun e => if e == "w" then Status.warning else Status.error) (b01 nw)).toNat)
+  | ["opensrc", kind, sym, su, sg, st, nl, c, f, k] =>
+    match srcOf kind sym su sg st nl with
+    | some src =>
+      let d := srcDecision src ⟨b01 c, b01 f, b01 k⟩
+      let ev : List Status := match d with
+        | .ok => [] | .errNoEnt => [.error] | .errNxio => [.error] | _ => [.warning]
+      ((), s!"{d.toNat} {statusCode ev}")
+    | none => ((), "bad-op")
+  | ["runfile", md, f, sx, c, fo, k, nm, kind, sym, smode, nl, dk, gf, ofl, nw] =>
+    match fmtOf f, sfxOf sx, bytesOfHex nm, smode.toNat?, dk.toNat? with
+    | some fmt, some (some custom), some name, some sm, some dkn =>
+      match srcOf kind sym (if sm / 2048 % 2 == 1 then "1" else "0") (if sm / 1024 % 2 == 1 then "1" else "0")
+              (if sm / 512 % 2 == 1 then "1" else "0") nl with
+      | some src =>
+        let fc : FileCase := { mode := if md == "c" then .compress else .decompress, fmt := fmt, custom := custom,
+                               flags := ⟨b01 c, b01 fo, b01 k⟩, name := name, src := src, srcMode := sm,
+                               dest := DestKind.ofCode dkn, groupFail := b01 gf, ownerFail := b01 ofl }
+        -- the name mapping inside runFile uses the model tables; re-run it over the Gen tables and insist on agreement
+        let o := runFile fc
+        let gname := if md == "c" then gCompressed fmt custom name else gUncompressed fmt custom name
+        let agree := destName fc.mode fmt custom name == gname
+        let (d, m) := match o.action with
+          | .done t m => (hexOfBytes t, toString m)
+          | _ => ("-", "-")
+        let x := (runStatus o.events (b01 nw)).toNat
+        ((), (if agree then "" else "GEN-MODEL-TABLE-MISMATCH ") ++
+          s!"A={actionStr o.action} D={d} M={m} R={if o.srcRemoved then 1 else 0} X={x}")
+      | none => ((), "bad-op")
+    | some _, some none, some _, some _, some _ => ((), "fatal")
+    | _, _, _, _, _ => ((), "bad-op")
+  | _ => ((), "bad-op")
+
+def main : IO Unit := runLoop step ()
